@@ -17,12 +17,12 @@ CLAIMED = {
    design="6/C01"),
  "C02": dict(
    technique="runtime monitoring: trace-specification checker over recorded yield/resume/body event logs of instrumented generator pipelines (reference-free laws + list model) + differential reference-model monitor, four allocation stress modes",
-   text="Generator pipelines (leaf, map, filter, chain, take, nest, relay, zip) written in calc with every yield bracketed by trace writes are consumed by loops at top level, in functions, at recursion depth, after other (composed) loops of the same statement and with early returns; the event log must satisfy the suspension-stack, body-after-yield, resume-after-body, exactly-once and abandon laws and match a list model. The same pipelines untraced (also with directly nested consumers), generator-heavy typed sessions and a yield-operand family (global/captured/local/parameter/constant/expression operands with bodies that reassign them and generators that recurse 0..180 deep between their yields) are compared with the reference semantics.",
+   text="Generator pipelines (leaf, map, filter, chain, take, nest, relay, zip) written in calc with every yield bracketed by trace writes are consumed by loops at top level, in functions, at recursion depth, after other (composed) loops of the same statement and with early returns; the event log must satisfy the suspension-stack, body-after-yield, resume-after-body, exactly-once and abandon laws and match a list model. The same pipelines untraced (also with directly nested consumers), generator-heavy typed sessions and a yield-operand family (global/captured/local/parameter/constant/expression operands with bodies that reassign them and generators that recurse 0..180 deep between their yields) are compared with the reference semantics; so are sessions in which generators yield closures (directly or from a call below the defining frame) that the consumer keeps, calls, returns out of the loop and calls again after the context was recycled, and the C03 depth sweep (loops running d frames below live loops).",
    note="Trace laws need no model of calc; the list model of constant-leaf pipelines and harness/rs are trusted for the value sequences.",
    design="6/C02"),
  "C03": dict(
    technique="runtime monitoring: metamorphic history monitor (one pure call evaluated in 13 dynamic contexts of one session, interleaved with noise, under plain/tight/pregrown allocation) + differential reference-model monitor",
-   text="Within one session a side-effect-free function (random typed; closure around a deep call; closure around a 129..300-local call; wide frame with a loop over its last local; closure generator read after every resume; three-way zip; loops calling returned closures) is called with equal arguments as first statement, at recursion depths 1..4/10/130/1000 and two random depths in 100..420, in while/for bodies, inside a generator, twice in one array literal, after a failed statement, after the stack grew by up to 4000 frames, after contexts were recycled, after an early return out of a zipped loop in the same statement; all renderings must equal the first and the reference. A second family sweeps a function that reads a never-assigned local (must be nil) over 45 consecutive call depths after dirtying the slots below.",
+   text="Within one session a side-effect-free function (random typed; closure around a deep call; closure around a 129..300-local call; wide frame with a loop over its last local; closure generator read after every resume; three-way zip; loops calling returned closures; function literals written in a for iterator expression that escape the loop before another function recycles the context; a closure routed through other functions while its defining call is live) is called with equal arguments as first statement, at recursion depths 1..4/10/130/1000 and two random depths in 100..420, in while/for bodies, inside a generator, twice in one array literal, after a failed statement, after the stack grew by up to 4000 frames, after contexts were recycled, after an early return out of a zipped loop in the same statement; all renderings must equal the first and the reference. A second family sweeps a function that reads a never-assigned local (must be nil) over 45 consecutive call depths after dirtying the slots below. A third (depths) calls a loop-running function from the body of a live zipped/nested loop through d plain frames, d sweeping 0..1000, the neighbourhoods of 2^8, 2^9, 2^15, 2^16 and 2^17, and runs a zipped loop on every recursion level up to 600 levels: the value must not depend on d and must be the one computed from the program constants.",
    note="Purity of the generated function is by construction (no write/read); noise statements use disjoint global names.",
    design="6/C03"),
  "C04": dict(
@@ -47,7 +47,7 @@ CLAIMED = {
    design="6/C10"),
  "C08": dict(
    technique="runtime monitoring: twin-run monitor (failure session vs a session that re-creates the completed globals by literal assignments) + residue assertion on hooked state after each failure + differential reference-model monitor",
-   text="Sessions prefix·F·suffix with F a parse error or one of the seven runtime error classes raised at top level, at call depth up to 200, in loop bodies, in (nested) generators after the k-th yield, in closures, or several in a row are compared statement-by-statement with a twin that never saw F but holds the same globals, and with the reference; the hooked machine state must be clean after every failure and unchanged by a parse error.",
+   text="Sessions prefix·F·suffix with F a parse error or one of the seven runtime error classes raised at top level, at call depth up to 200, in loop bodies, in (nested) generators after the k-th yield, in closures, or several in a row are compared statement-by-statement with a twin that never saw F but holds the same globals, and with the reference; the hooked machine state must be clean after every failure and unchanged by a parse error; handed to the REPL/file loop's processInput as multi-statement inputs (greedy grouping that provably parses into the same statements) the failing part and the suffix must print and leave exactly what they do one statement per input.",
    note="Completed globals are literal-printable by construction; helper definitions inside F are replayed verbatim in the twin.",
    design="6/C08"),
  "C12": dict(
@@ -72,7 +72,7 @@ CLAIMED = {
    design="6/C06"),
  "C13": dict(
    technique="runtime monitoring: model-conformance monitor over TLexer operation histories + ordered-choice recogniser monitor over random combinator expressions",
-   text="Random Next/Snapshot/Rollback/Commit histories on the real TLexer are compared observer-by-observer with a fresh plain scan after every op; random expressions over all 13 combinators run on the real TLexer are compared with a pure position-passing recogniser (accept/reject, nodes, end position, following token, snapshot balance).",
+   text="Random Next/Snapshot/Rollback/Commit histories (5..120 ops on short texts, 500..3000 ops on streams of 300..900 tokens) on the real TLexer are compared observer-by-observer with a fresh plain scan after every op; random expressions over all 13 combinators run on the real TLexer are compared with a pure position-passing recogniser (accept/reject, nodes, end position read through From(), following token, snapshot balance), on short streams and on streams of 280..700 tokens entered beyond token 250.",
    note="Generator keeps to the grammar's side conditions (Choose ends in an Ok gate, Not only under Assert, loops consume). Committed-choice semantics taken from the package documentation.",
    design="6/C13"),
  "C07": dict(
@@ -82,12 +82,12 @@ CLAIMED = {
    design="6/C07"),
  "C18": dict(
    technique="runtime monitoring: model-conformance monitor over VM-legal memory operation histories in plain and tight-allocator (every growth moves the array) modes, unique written values",
-   text="VM-legal histories (calls with frame widths crossing 128/256, returns, local writes, frame-header aliases, globals, Clone with and without recycled targets on up to 9 interleaved memories, resets) run on the real memory.Type; after every op every observer of every live memory and alias is compared with a model where each activation is an independent record; plain and tight allocation. Language level: name-pressure sessions (incl. zipped loops over existing and new locals), wide-frame/closure functions called at recursion depths 0..300 with locals written around the call, and recursion 10^4..3x10^4 deep, against the reference under plain/tight/pregrown allocation.",
+   text="VM-legal histories (calls with frame widths crossing 128/256, returns, local writes, frame-header aliases, globals, Clone with and without recycled targets on up to 9 interleaved memories, resets) run on the real memory.Type; after every op every observer of every live memory and alias is compared with a model where each activation is an independent record; plain and tight allocation. Language level: name-pressure sessions (incl. zipped loops over existing and new locals), wide-frame/closure functions called at recursion depths 0..300 with locals written around the call, and recursion 10^4..3x10^4 deep, against the reference under plain/tight/pregrown allocation; the depth sweep of C03 (loops d frames below live loops, d up to 2^17+1) runs here too.",
    note="Histories are limited to what the VM can issue. Tight mode relies on the verif hook trimming a freshly grown stack (append may move at any growth). Language-level reach of the same property comes from C03/C04 sessions.",
    design="6/C18"),
  "C16": dict(
    technique="runtime monitoring: cross-process metamorphic monitor over the freshly built cmd/calc in -eval, piped-REPL and file mode, byte-exact against per-mode expectations derived from the reference, plus in-process statement-by-statement comparison",
-   text="Scripts mixing one-line and multi-line statements, strings and comments full of braces/brackets/quotes/semicolons/line breaks, blank and comment-only lines, random layout, with and without final newline run through the real binary in file mode, piped into the REPL and (first statement / self-contained blocks) through -eval; stdout of each mode must equal byte for byte what the reference semantics says that mode prints, file mode must equal entering the statements one by one in-process, exit status 0.",
+   text="Scripts mixing one-line and multi-line statements, strings and comments full of braces/brackets/quotes/semicolons/line breaks, string literals with backslashes (also as the last character of a line of a multi-line string, the next line starting with the closing quote or another backslash), blank and comment-only lines, random layout, with and without final newline run through the real binary in file mode, piped into the REPL and (first statement / self-contained blocks) through -eval; stdout of each mode must equal byte for byte what the reference semantics says that mode prints, file mode must equal entering the statements one by one in-process, exit status 0.",
    note="Scripts avoid runtime errors (reports contain pointers) and carriage returns. REPL string quoting is treated as the documented presentation difference.",
    design="6/C16"),
  "C17": dict(
